@@ -210,6 +210,81 @@ def run_container(ctx, case):
              labels=[f"blocks={len(case['blocks'])}"] + [b["spec"]["t"] for b in case["blocks"]])
 
 
+def edits_strategy(tier):
+    types = ["emg", "platCal", "data3D", "force3D", "events", "optical", "platData"]
+    return st.sampled_from(types).flatmap(lambda t: st.fixed_dictionaries({
+        "spec": specs.SPEC[t](tier, 2), "hints": specs.HINTS,
+        "edits": st.lists(st.tuples(st.sampled_from(["remove", "remove", "add"]), st.integers(0, 50)).map(list), min_size=1, max_size=5)}))
+
+
+def run_edits(ctx, case):
+    """the declared size must keep following the encoding while items are removed and added through the public interface"""
+    import numpy as np
+
+    spec, hints = case["spec"], case.get("hints")
+    t = spec["t"]
+    ok, blk = ctx.must(lambda: specs.build(spec, hints), f"{t}/build", f"constructing a valid {t} block")
+    done = 0
+    if ok:
+        cls = specs.lib_class(t)
+        fresh = specs.build(spec, hints)  # a second, independent copy to take new items from
+        for kind, k in case["edits"]:
+            try:
+                if kind == "remove":
+                    if t == "emg":
+                        its = list(blk)
+                        if not its:
+                            continue
+                        blk.removeSignal(its[k % len(its)].label)
+                    elif t == "platCal":
+                        if not len(blk):
+                            continue
+                        blk.remove_platform(k % len(blk))
+                    elif t in ("data3D", "force3D"):
+                        if not blk.tracks:
+                            continue
+                        del blk.tracks[k % len(blk.tracks)]
+                    elif t == "events":
+                        if not blk.events:
+                            continue
+                        del blk.events[k % len(blk.events)]
+                    elif t == "optical":
+                        if not blk.channels:
+                            continue
+                        del blk.channels[k % len(blk.channels)]
+                    else:
+                        continue
+                else:
+                    src = list(fresh) if t not in ("platCal", "platData") else [p for _, p in (fresh.platforms if t == "platCal" else list(fresh))]
+                    if not src:
+                        continue
+                    it = src[k % len(src)]
+                    if t == "emg":
+                        blk.addSignal(it)
+                    elif t in ("platCal", "platData"):
+                        used = {int(c) for c, _ in (blk.platforms if t == "platCal" else list(blk))}
+                        c = 0
+                        while c in used:
+                            c += 1
+                        blk.add_platform(it, channel=c)
+                    elif t in ("data3D", "force3D"):
+                        blk.add_track(it)
+                    elif t == "events":
+                        blk.events.append(it)
+                    else:
+                        blk.channels.append(it)
+            except Exception as e:  # noqa
+                from ..core import lib_frame
+
+                if lib_frame(e) is None:
+                    raise
+                ctx.fail(f"{t}/edit-{kind}-raises-{type(e).__name__}", f"{t}: {kind} through the public interface raised {type(e).__name__}: {e}")
+                break
+            done += 1
+            check_sizes(ctx, t, f"{t}-after-{kind}", blk, lambda: specs.lib_write(blk), lambda s_: cls._build(s_, spec["format"]))
+    ctx.case(case, done > 0, labels=[t] + sorted({f"edit:{k}" for k, _ in case["edits"]}))
+
+
 def _strategy(tier):
     return specs.any_block_case(tier)
 
@@ -223,6 +298,8 @@ SUBS = [
         rule="generated valid blocks of all nine types; declared = written = consumed = reference size"),
     Sub("items", run_items, strategy=_items_strategy, budget=(1000, 30000), shards=(4, 16),
         rule="each nested item (track, signal, platform, camera, channel, event, 2D packet, viewport) of generated blocks on its own"),
+    Sub("after-edits", run_edits, strategy=edits_strategy, budget=(500, 15000), shards=(2, 16),
+        rule="blocks with >= 2 items edited through the public interface (remove / add items): declared = written = consumed after every edit"),
     Sub("capture", run_capture, kind="enum", enumerate=enum_capture, shards=(1, 1),
         rule="the 8 blocks of the BTS-recorded capture vs. the sizes in its jump table (finite, enumerated)"),
     Sub("container", run_container, strategy=container_strategy, budget=(150, 4000), shards=(2, 16),
